@@ -632,3 +632,8 @@ H("frame_iter_total_c0", ["C03", "C10"], "thorough", "frame::iter_step_total",
 H("recv_reinit", ["C06", "C11"], "quick", "connection::streams::recv::reinit",
   [("kind", "u8"), ("size", "u64"), ("code", "u64"), ("sent_max", "u64"), ("end", "u64"), ("bytes_read", "u64"), ("stopped", "bool"), ("initial_max_data", "u64")], 6,
   ["reached"], ["Recv::reinit", "Recv::new", "Assembler::reinit"], "every previous state, every new initial limit: u64")
+
+# ------------------------------------------------------------------ native replay bodies for E2 queries (never run under Kani)
+H("streams_stream_freed_native", ["C11"], "replay-only", "connection::streams::state::stream_freed_native",
+  [("server", "bool"), ("raw_id", "u64"), ("half_recv", "bool"), ("other_present", "bool")], 4, [],
+  ["StreamsState::stream_freed"], "native replay body of E2 query e2_stream_freed")
